@@ -43,28 +43,52 @@ theorem c07_one_client_per_placement (es : List Event) : (keys (run {} es).clien
   exact this es {} (by simp [keys])
 
 /-- **C07 (quiescence).** Let the store stop changing (`w`: the wanted placements with the children each
-would be constructed with). From ANY manager state with one client per placement that is running, after
+would be constructed with; `bad`: those among them whose client cannot be constructed — newClientState fails, e.g.
+a point the configuration cannot take). From ANY manager state with one client per placement that is running, after
 one scan and after the clients told to stop have exited (any number of exits, in any order — each is
 followed by the manager's rescan), as soon as no client is stopping any more:
-exactly the wanted placements have a client, one each, and (given that every running client's children
-were current, which `c07_children_current_kept` maintains) every client holds the current children. -/
-theorem c07_quiesce (w : Want) (m : Mgr) (hnd : (keys m.clients).Nodup) (hlive : m.stopping = false ∧ m.done = false)
+every wanted placement whose client can be constructed has a client, only wanted placements have one, one each;
+no client was constructed for a placement whose construction fails (the manager neither crashes on it nor runs a
+half-made client: such a placement has a client only if it had one before); and (given that every running client's
+children were current, which `c07_children_current_kept` maintains) every client holds the current children. -/
+theorem c07_quiesce (bad : List Key) (w : Want) (m : Mgr) (hnd : (keys m.clients).Nodup) (hlive : m.stopping = false ∧ m.done = false)
     (hf : Fresh w m) (ks : List Key) :
-    let m' := run (step m (.scan w)) (ks.map (fun k => Event.exited k w))
+    let m' := run (step m (.scan w bad)) (ks.map (fun k => Event.exited k w bad))
     (∀ c ∈ m'.clients, c.stopping = false) →
-      (∀ k, k ∈ keys m'.clients ↔ k ∈ wkeys w) ∧ (keys m'.clients).Nodup ∧ Fresh w m' := by
+      (∀ k ∈ wkeys w, k ∉ bad → k ∈ keys m'.clients) ∧ (∀ k ∈ keys m'.clients, k ∈ wkeys w) ∧
+      (∀ k ∈ keys m'.clients, k ∈ bad → k ∈ keys m.clients) ∧ (keys m'.clients).Nodup ∧ Fresh w m' := by
   intro m' hquiet
-  have h0 : Toward w (step m (.scan w)) := by
+  have h0 : Toward bad w (step m (.scan w bad)) := by
     simp only [step, hlive.2, Bool.false_eq_true, if_false]
-    exact scan_toward w m hnd hlive
-  have hf0 : Fresh w (step m (.scan w)) := by
+    exact scan_toward bad w m hnd hlive
+  have hf0 : Fresh w (step m (.scan w bad)) := by
     simp only [step, hlive.2, Bool.false_eq_true, if_false]
-    exact scan_fresh w m hnd hlive.1 hf
-  obtain ⟨ht, hfr⟩ := exits_toward w ks _ h0 hf0
-  refine ⟨?_, ht.nodup, hfr⟩
-  intro k
-  constructor
-  · intro hk
+    exact scan_fresh bad w m hnd hlive.1 hf
+  obtain ⟨ht, hfr⟩ := exits_toward bad w ks _ h0 hf0
+  -- no event of this run constructs a client for a bad placement
+  have hsub : ∀ (ks : List Key) (m0 : Mgr), (keys m0.clients).Nodup →
+      ∀ k ∈ keys (run m0 (ks.map (fun k => Event.exited k w bad))).clients, k ∈ bad → k ∈ keys m0.clients := by
+    intro ks
+    induction ks with
+    | nil => intro m0 _ k hk _; exact hk
+    | cons k0 ks ih =>
+      intro m0 hnd0 k hk hb
+      simp only [List.map_cons, run, List.foldl_cons] at hk
+      have h1 := ih (step m0 (.exited k0 w bad)) (step_nodup m0 _ hnd0) k hk hb
+      simp only [step] at h1
+      split at h1
+      · split at h1
+        · simp only [keys, List.mem_map, List.mem_filter] at h1 ⊢
+          obtain ⟨c, ⟨hc, _⟩, rfl⟩ := h1
+          exact ⟨c, hc, rfl⟩
+        · rcases scan_keys_sub bad w _ (keys_filter_nodup _ _ hnd0) k h1 with h2 | h2
+          · simp only [keys, List.mem_map, List.mem_filter] at h2 ⊢
+            obtain ⟨c, ⟨hc, _⟩, rfl⟩ := h2
+            exact ⟨c, hc, rfl⟩
+          · exact absurd hb h2.2
+      · exact h1
+  refine ⟨ht.have_all, ?_, ?_, ht.nodup, hfr⟩
+  · intro k hk
     simp only [keys, List.mem_map] at hk
     obtain ⟨c, hc, rfl⟩ := hk
     by_cases hw : c.key ∈ wkeys w
@@ -72,21 +96,26 @@ theorem c07_quiesce (w : Want) (m : Mgr) (hnd : (keys m.clients).Nodup) (hlive :
     · have := ht.extra_stopping c hc hw
       rw [hquiet c hc] at this
       cases this
-  · exact ht.have_all k
+  · intro k hk hb
+    have h1 := hsub ks (step m (.scan w bad)) (step_nodup m _ hnd) k hk hb
+    simp only [step, hlive.2, Bool.false_eq_true, if_false] at h1
+    rcases scan_keys_sub bad w m hnd k h1 with h2 | h2
+    · exact h2
+    · exact absurd hb h2.2
 
 /-- progress: while some client is stopping, an exit is possible and removes it; the number of clients
     told to stop never grows by exits and rescans (so quiescence is reached after that many exits) -/
-theorem c07_exit_removes (w : Want) (m : Mgr) (h : Toward w m) (c : Client) (hc : c ∈ m.clients) (hs : c.stopping = true) :
-    ∀ c' ∈ (step m (.exited c.key w)).clients, c'.key = c.key → c'.stopping = false := by
+theorem c07_exit_removes (bad : List Key) (w : Want) (m : Mgr) (h : Toward bad w m) (c : Client) (hc : c ∈ m.clients) (hs : c.stopping = true) :
+    ∀ c' ∈ (step m (.exited c.key w bad)).clients, c'.key = c.key → c'.stopping = false := by
   intro c' hc' hk
   have hany : m.clients.any (fun x => x.key == c.key && x.stopping) = true := by
     rw [List.any_eq_true]; exact ⟨c, hc, by simp [hs]⟩
   simp only [step, hany, if_true, h.live.1, Bool.false_eq_true, if_false] at hc'
-  rw [scan_eq _ _ rfl] at hc'
+  rw [scan_eq _ _ _ rfl] at hc'
   simp only at hc'
   have hnd : (keys (m.clients.filter (fun x => !(x.key == c.key)))).Nodup := keys_filter_nodup _ _ h.nodup
   have hk' := keys_mark w (m.clients.filter (fun x => !(x.key == c.key)))
-  obtain ⟨_, _, i3, _⟩ := startNew_spec w (mark w (m.clients.filter (fun x => !(x.key == c.key)))) (by rw [hk']; exact hnd)
+  obtain ⟨_, _, i3, _⟩ := startNew_spec (startable bad w) (mark w (m.clients.filter (fun x => !(x.key == c.key)))) (by rw [hk']; exact hnd)
   rcases i3 c' hc' with h1 | ⟨_, h2, _⟩
   · exfalso
     simp only [mark, List.mem_map, List.mem_filter] at h1
@@ -164,11 +193,11 @@ theorem c07_children_current_kept (w w' : Want) (m : Mgr) (hf : Fresh w m)
 /-- **C07 (Stop stops everything and returns).** After `Stop`, once every client has exited (the exits
 may come in any order, cover every client), no client is left and Run has returned. -/
 theorem c07_stop_returns (m : Mgr) (ks : List (Key × Want)) (hcover : ∀ c ∈ m.clients, c.key ∈ ks.map (·.1)) :
-    let m' := run (step m .stop) (ks.map (fun x => Event.exited x.1 x.2))
+    let m' := run (step m .stop) (ks.map (fun x => Event.exited x.1 x.2 []))
     m'.clients = [] ∧ m'.done = true := by
   have key : ∀ (ks : List (Key × Want)) (m : Mgr), m.stopping = true → (∀ c ∈ m.clients, c.stopping = true) →
       (m.clients = [] → m.done = true) → (∀ c ∈ m.clients, c.key ∈ ks.map (·.1)) →
-      (run m (ks.map (fun x => Event.exited x.1 x.2))).clients = [] ∧ (run m (ks.map (fun x => Event.exited x.1 x.2))).done = true := by
+      (run m (ks.map (fun x => Event.exited x.1 x.2 []))).clients = [] ∧ (run m (ks.map (fun x => Event.exited x.1 x.2 []))).done = true := by
     intro ks
     induction ks with
     | nil =>
@@ -238,8 +267,16 @@ theorem c07_stop_returns (m : Mgr) (ks : List (Key × Want)) (hcover : ∀ c ∈
     is told to stop, and after its exit nothing runs (the history that fails before the repair) -/
 example :
     let k : Key := ([103], [99])
-    let m := run {} [.scan [(k, [])], .scan [], .exited k []]
-    m.clients = [] ∧ (run {} [.scan [(k, [])], .scan []]).clients = [⟨k, [], true⟩] := by decide
+    let m := run {} [.scan [(k, [])] [], .scan [] [], .exited k [] []]
+    m.clients = [] ∧ (run {} [.scan [(k, [])] [], .scan [] []]).clients = [⟨k, [], true⟩] := by decide
+
+/-- non-vacuity of the `bad` part: a placement whose client cannot be constructed is skipped while its neighbour gets
+    a client; once it can be constructed (the point was repaired), the next scan starts it -/
+example :
+    let k : Key := ([103], [99])
+    let b : Key := ([103], [98])
+    (run {} [.scan [(k, []), (b, [])] [b]]).clients = [⟨k, [], false⟩] ∧
+    (run {} [.scan [(k, []), (b, [])] [b], .scan [(k, []), (b, [])] []]).clients = [⟨k, [], false⟩, ⟨b, [], false⟩] := by decide
 
 /-- tie A: scanHelper, the bookkeeping of scan, the exit hand-shake and Stop in client/manager.go and
 client/client-state.go have the shape the model transcribes (after the repair: no early return). -/
@@ -250,6 +287,8 @@ theorem gen_manager_pinned :
     Gen.scanRanges = ["nodes", "points", "points", "m.clientStates"] ∧
     Gen.scanNew = ["m.nc, m.construct, n"] ∧
     Gen.scanBookIfs = ["err != nil", "ok", "err != nil", "err != nil", "ok"] ∧
+    -- the third `if` is the one after newClientState: it skips the node (after the repair) instead of going on with a nil state
+    Gen.scanIfExits = ["err != nil -> return", "ok -> continue", "err != nil -> continue", "err != nil -> return", "ok -> continue"] ∧
     Gen.runScans = ["m.root", "m.root", "", "", ""] ∧
     Gen.runDeletes = ["m.clientUpSub, key", "m.clientStates, key"] ∧
     Gen.runIfsMgr = ["err != nil", "len(nodes) < 1", "err != nil", "p.Type == data.PointTypeNodeType", "err != nil", "err != nil", "stopping",
